@@ -7,9 +7,10 @@
 (* PbExpressible - the harness never decides what a format can express.                                           *)
 EXTENDS Codec, Json, Randomization, SequencesExt
 
-CONSTANTS Component,      \* "lanelet" | "sign" | "light" | "intersection" | "obstacle" | "planning" | "header" | "numbers" | "mixed" | "mixedx"
+CONSTANTS Component,      \* "lanelet" | "sign" | "light" | "intersection" | "obstacle" | "planning" | "header" | "numbers" | "mixed" | "mixedx" | "small" (= planning .. header in one run)
           Precisions,     \* decimal precisions of the numbers component, e.g. {1, 4, 8, 12}
           NMixed,         \* number of random mixed cases
+          NShards,        \* the cases are the successors of NShards seed states, so that TLC's workers share the laws
           DEV_XmlDropsHorn,            \* TRUE: the XML writer as shipped before 7d36fa4 - no <horn> element
           DEV_ReaderStopsAtFirstUnset  \* TRUE: the readers as shipped before 600bdde - an initial state is read only up to
                                        \*       its first unset attribute, the rest is replaced by the default
@@ -325,42 +326,60 @@ MixedDesc(i) ==
                       ReId(RandomElement(OkObst), 53), ReId(RandomElement(OkObstByRole["dynamic"]), 54)>>,
       pps |-> <<RandomElement(OkPP), ReId(RandomElement(OkPP), 92)>>]
 
-Cases ==
-  CASE Component = "obstacle"     -> {Case("obstacle", 4, EmbedObst(o)) : o \in ObstaclePool}
-    [] Component = "planning"     -> {Case("planning", 4, EmbedPP(p)) : p \in PPPool}
-    [] Component = "lanelet"      -> {Case("lanelet", 4, EmbedLanelet(la)) : la \in LaneletPool}
-    [] Component = "sign"         -> {Case("sign", 4, EmbedSign(sc)) : sc \in SignPool \cup SignAllIds}
-    [] Component = "light"        -> {Case("light", 4, EmbedLight(t)) : t \in LightPool}
-    [] Component = "intersection" -> {Case("intersection", 4, EmbedInter(x)) : x \in InterPool}
-    [] Component = "header"       -> {Case("header", 4, EmbedHdr(h)) : h \in HeaderPool}
-    [] Component = "numbers"      -> {Case("numbers", d, desc) : d \in Precisions, desc \in NumDescs}
-    [] Component \in {"mixed", "mixedx"} -> {Case("mixed", RandomElement(Precisions), MixedDesc(i)) : i \in 1..NMixed}
+CasesOf(comp) ==
+  CASE comp = "obstacle"     -> {Case("obstacle", 4, EmbedObst(o)) : o \in ObstaclePool}
+    [] comp = "planning"     -> {Case("planning", 4, EmbedPP(p)) : p \in PPPool}
+    [] comp = "lanelet"      -> {Case("lanelet", 4, EmbedLanelet(la)) : la \in LaneletPool}
+    [] comp = "sign"         -> {Case("sign", 4, EmbedSign(sc)) : sc \in SignPool \cup SignAllIds}
+    [] comp = "light"        -> {Case("light", 4, EmbedLight(t)) : t \in LightPool}
+    [] comp = "intersection" -> {Case("intersection", 4, EmbedInter(x)) : x \in InterPool}
+    [] comp = "header"       -> {Case("header", 4, EmbedHdr(h)) : h \in HeaderPool}
+    [] comp = "numbers"      -> {Case("numbers", d, desc) : d \in Precisions, desc \in NumDescs}
+    [] comp \in {"mixed", "mixedx"} -> {Case("mixed", RandomElement(Precisions), MixedDesc(i)) : i \in 1..NMixed}   \* see ShardCases
+    \* small witnesses for the deviation configurations (DEV_Codec_*.cfg)
+    [] comp = "dev_horn"     -> {Case("obstacle", 4, EmbedObst(Dyn("CAR", DefRect, InitFull, <<SigOf(TE(0), S, 1)>>, <<>>, 1, DefTraj))) :
+                                   S \in {{"horn"}, {"horn", "braking_lights"}, {"braking_lights"}}}
+    [] comp = "dev_init"     -> {Case("planning", 4, EmbedPP(PP(91, ini, <<TimeGoal>>, 1))) : ini \in PPInits}
+SmallComponents == {"planning", "lanelet", "sign", "light", "intersection", "header"}
+Cases == IF Component = "small" THEN UNION {CasesOf(c) : c \in SmallComponents} ELSE CasesOf(Component)
 
-(* the pools are generous; WellFormed (constructor preconditions, quantifier text) is the gate *)
-Init == cs \in {c \in Cases : WellFormed(c.desc)}
-Next == UNCHANGED cs
+(* the pools are generous; WellFormed (constructor preconditions, quantifier text) is the gate.  Shard k holds every *)
+(* NShards-th case (random mixed cases: the draws i = k mod NShards); the seed states themselves are not cases.      *)
+Seed(k) == [comp |-> "seed", d |-> k, desc |-> <<>>]
+IsSeed == cs.comp = "seed"
+ShardCases(k) ==
+  IF Component \in {"mixed", "mixedx"}
+  THEN {c \in {Case("mixed", RandomElement(Precisions), MixedDesc(i)) : i \in {j \in 1..NMixed : j % NShards = k - 1}} : WellFormed(c.desc)}
+  ELSE LET sq == SetToSeq({c \in Cases : WellFormed(c.desc)}) IN {sq[i] : i \in {j \in DOMAIN sq : j % NShards = k - 1}}
+Init == cs \in {Seed(k) : k \in 1..NShards}
+Next == IsSeed /\ cs' \in ShardCases(cs.d)
 Spec == Init /\ [][Next]_vars
 
 (* ------------------------------ laws checked on every case ---------------------------------------------------------- *)
 D == cs.desc
 LawWellFormed == WellFormed(D)                                        \* the pools stay inside the common sanity conditions
-LawIdempotent == \A fmt \in {"xml", "pb"} : ReadBackOf(fmt, ReadBackOf(fmt, D)) = ReadBackOf(fmt, D)
+LawIdempotent == IsSeed \/
+  \A fmt \in {"xml", "pb"} : ReadBackOf(fmt, ReadBackOf(fmt, D)) = ReadBackOf(fmt, D)
 (* ReadBack is the identity on carried leaves, except that unset attributes of initial states appear with the default *)
 InitDefaultPaths == {"initialState." \o AttrShort(InitialAttrs[i]) \o x : i \in DOMAIN InitialAttrs, x \in {"", ".kind"}}
-LawIdentityOnCarried ==
+LawIdentityOnCarried == IsSeed \/
   \A fmt \in {"xml", "pb"} :
     LET e == Expected(fmt, D)  c == CarriedLeaves(fmt, D) IN
     /\ SelectSeq(e, LAMBDA l : l[4] \notin {"r0", "rD"} /\ ~(l[3] \in InitDefaultPaths /\ l \notin Range(c)) /\ l[3] # "stopLine.hasPoints")
          = SelectSeq(c, LAMBDA l : l[3] # "stopLine.hasPoints")
     /\ \A l \in Range(e) \ Range(c) : \/ (l[1] \in {"obstacle", "planning"} /\ l[3] \in InitDefaultPaths)
                                        \/ (fmt = "xml" /\ l[1] = "lanelet" /\ l[3] \in {"stopLine", "stopLine.hasPoints"})
-LawPopulatedPreserved == \A sq \in Range(AllStates(D)) : PopulatedPreservedFor(PopSet(sq[1]), sq[2])
+LawPopulatedPreserved == IsSeed \/
+  \A sq \in Range(AllStates(D)) : PopulatedPreservedFor(PopSet(sq[1]), sq[2])
 (* what the expected read-back of a state populates is exactly Populated(written attributes, isInitial) *)
-LawExpectedPopulated == LET a == AllStates(D)  b == AllStates(ReadBack(D)) IN
+LawExpectedPopulated == IsSeed \/
+  LET a == AllStates(D)  b == AllStates(ReadBack(D)) IN
                         \A i \in DOMAIN a : PopSet(b[i][1]) = Populated(PopSet(a[i][1]), a[i][2])
-LawCarriedMonotone == \A l \in Range(Leaves(D)) : XmlCarried(l) => PbCarried(l)      \* protobuf carries whatever XML carries
+LawCarriedMonotone == IsSeed \/
+  \A l \in Range(Leaves(D)) : XmlCarried(l) => PbCarried(l)      \* protobuf carries whatever XML carries
 (* a read-back whose reals come back in the required class is accepted by the comparison the trace spec uses *)
-LawAccepts == LET proj(fmt, c) == LET lv == Leaves(ReadBackOf(fmt, D)) IN
+LawAccepts == IsSeed \/
+  LET proj(fmt, c) == LET lv == Leaves(ReadBackOf(fmt, D)) IN
                                      [i \in DOMAIN lv |-> IF lv[i][4] = "r" THEN <<lv[i][1], lv[i][2], lv[i][3], c>>
                                                           ELSE IF lv[i][4] = "r0" THEN <<lv[i][1], lv[i][2], lv[i][3], "re:zero">>
                                                           ELSE IF lv[i][4] = "rD" THEN <<lv[i][1], lv[i][2], lv[i][3], "re:other">> ELSE lv[i]]
@@ -384,7 +403,7 @@ ImplReadBack(fmt, d) ==
                               IF o.role \in {"static", "dynamic"} THEN [o EXCEPT !.init = ImplFillInitial(o.init)] ELSE o],
              !.pps = [i \in DOMAIN d.pps |-> [d.pps[i] EXCEPT !.init = ImplFillInitial(d.pps[i].init)]]]
 (* Impl => Contract: what the implementation model reads back is accepted by the comparison of the trace spec *)
-LawImplConforms ==
+LawImplConforms == IsSeed \/
   \A fmt \in {"xml", "pb"} :
     LET lv == Leaves(ImplReadBack(fmt, D))
         c == IF fmt = "xml" THEN "re:within_tol" ELSE "re:exact"
@@ -394,9 +413,10 @@ LawImplConforms ==
     IN ((fmt = "xml" => XmlExpressible(D)) /\ (fmt = "pb" => PbExpressible(D))) => Diffs(fmt, Expected(fmt, D), pr) = {}
 
 (* contract and schema are mutually consistent: the document the contract demands is valid *)
-LawSchema == XmlExpressible(D) => ContractDocValid(D)
+LawSchema == IsSeed \/ (XmlExpressible(D) => ContractDocValid(D))
 
-Emit == PrintT(<<"CASE", ToJson([comp |-> cs.comp, d |-> cs.d, desc |-> cs.desc,
+Emit == IsSeed \/
+  PrintT(<<"CASE", ToJson([comp |-> cs.comp, d |-> cs.d, desc |-> cs.desc,
                                  xml |-> XmlExpressible(cs.desc), pb |-> PbExpressible(cs.desc), q |-> QuotaOK(cs.desc)])>>)
 
 (* the tables of Codec.tla, printed once: the harness checks its value tables against them *)
